@@ -224,7 +224,9 @@ Definition corr_acf (s : sctx) (st : bstate) (merge : bool) (ins : list value) (
 (* only the first pass ran (it raised) *)
 Definition corr_acf1 (s : sctx) (st : bstate) (merge : bool) (ins : list value) (outs : list (bytes * value))
            (fee1 : Z) (k : N) : bool :=
-  match calc_change (s_minada s) (s_pack s) st (negb merge) fee1 ins (map snd outs) with
+  let mouts := map (fun o => (bytes_eqb (fst o) (s_addr s), snd o)) outs in
+  let idx := if merge then find_idx 0 None mouts else None in
+  match acf_pass (s_minada s) (s_pack s) st merge idx fee1 ins mouts with
   | inl e => (err_code e =? k)%N
   | inr _ => false
   end.
